@@ -7,10 +7,13 @@ LEVEL_TEXT = ("static: decides on every path (a) the insert filter (rcode in {NO
               "expiry = now+ttl), (b) what the key is composed of and that the map is case-insensitive, (c) expire-before-lookup and decrement-before-hand-out, "
               "(d) that no reader of a record TTL bypasses the cache age and none applies it twice, (e) that every server-set mutation and a successful "
               "reinit flush the cache. Does not decide numeric expiry boundaries over virtual time.")
+# fifth-round additions
+TECHNIQUE += "; " + 'typestate over ares_servers_update extended to position changes and to every return (failure paths included)'
+LEVEL_TEXT += " " + '(FLUSH) adding, removing or moving a server makes the update dirty, and a dirty update is flushed on every return, also one that reports an error after part of the change was made.'
 LEVEL_NOTE = "trusts clang CFG + extractor; rr->ttl readers are enumerated over the whole library (field access by record type, not by name)"
 DESIGN_REF = "DESIGN.md §6/C08"
 EXPLANATION = LEVEL_TEXT
-NOT_DECIDED = "numeric expiry over time; lifetime of NOERROR/NODATA answers (SOA-less negative answers use max_ttl: reported in evidence only); cache flush on the failure return of ares_servers_update"
+NOT_DECIDED = "numeric expiry over time; lifetime values of negative answers"
 
 
 def r_filter(prog, R):
